@@ -37,6 +37,8 @@ pub struct Sess {
     pub pw: Option<usize>,
     pub superseded: bool,
     pub finished: bool,
+    /// when the session was opened (sessions have a lifetime of their own)
+    pub started: u64,
 }
 
 #[derive(Clone, Debug, Default)]
@@ -162,7 +164,7 @@ impl World for Reset {
                                 s.superseded = true;
                             }
                         }
-                        self.sess.push(Sess { cust, link: *l, pw: None, superseded: false, finished: false });
+                        self.sess.push(Sess { cust, link: *l, pw: None, superseded: false, finished: false, started: self.now });
                         "ok".into()
                     }
                     Err(e) => format!("err:{e:?}"),
@@ -258,7 +260,7 @@ impl World for Reset {
             }
         }
         for s in &self.sess {
-            h.write_str(&format!("S{}:{:?}:{}:{}", s.link, s.pw, s.superseded, s.finished));
+            h.write_str(&format!("S{}:{:?}:{}:{}:{}", s.link, s.pw, s.superseded, s.finished, now - s.started));
         }
         h.write_str(&format!("{:?}", self.current_pw));
         h.finish()
